@@ -371,7 +371,9 @@ Definition server_select_suite (s : Server) (ch : CHello) (v : Z) (suites : list
   let st := sv_set s in
   let c1 := filter_for_certificate suites (sv_cert s) in
   let prfs := map snd (filter (fun p => memZ (fst p) (ch_psk_ids ch)) (st_psks st)) in
-  let c2 := match prfs with [] => c1 | _ => filter_for_prfs c1 prfs end in
+  (* /repo 63e0638: the PRF of a matching PSK narrows the suites only when TLS 1.3 is negotiated *)
+  let c2 := if fix_psk_prf_tls13_only && (v <? 4) then c1
+            else match prfs with [] => c1 | _ => filter_for_prfs c1 prfs end in
   (* repaired server: EdDSA certificates are refused with an alert before TLS 1.2 *)
   if fix_eddsa_server && (v <? 3) && (match sv_cert s with Some c => (ct_alg c =? 3) || (ct_alg c =? 4) | None => false end)
   then server_alert a_handshake_failure else
@@ -569,6 +571,12 @@ Definition server_legacy (s : Server) (ch : CHello) (v suite : Z) : res (Flight 
 (* the client's side of TLS <= 1.2, given the server's flight; returns the client's view and
    what it sends back that the server still checks (client certificate, CertificateVerify scheme,
    NPN choice) *)
+Definition cert_fits_suite (suite alg : Z) : bool :=
+  if memZ suite ecdheEcdsaSuites then (alg =? 2) || (alg =? 3) || (alg =? 4)
+  else if memZ suite dheDsaSuites then alg =? 5
+  else if memZ suite certSuites then alg =? 0
+  else (alg =? 0) || (alg =? 1).
+
 Definition client_legacy (c : Client) (ch : CHello) (fl : Flight)
   : res (View * option Cert * option Z * option Z) :=
   let st := cl_set c in
@@ -589,6 +597,9 @@ Definition client_legacy (c : Client) (ch : CHello) (fl : Flight)
           match fl_cert fl with
           | Some sc =>
               _ <- check_chain 1000 st v sc ;;
+              (* /repo ba3ad1b: the certificate's key type must fit the suite (RFC 5246 7.4.2) *)
+              _ <- (if fix_cert_type_vs_suite && negb (cert_fits_suite suite (ct_alg sc))
+                    then client_alert a_illegal_parameter else Ok tt) ;;
               (match fl_sig fl with
                | Some sg => if memZ sg (sig_hashes_to_list st false (Some sc) 3) then Ok tt
                             else client_alert a_illegal_parameter
